@@ -44,6 +44,52 @@ def shl (a : Int) (k : Nat) : Int := wrap (a * ((2 ^ k : Nat) : Int))
 def xor (a b : Int) : Int := ofU8 (toU8 a ^^^ toU8 b)
 def and (a b : Int) : Int := ofU8 (toU8 a &&& toU8 b)
 def or (a b : Int) : Int := ofU8 (toU8 a ||| toU8 b)
+/-- `-a` on `int8` (`-(-128) = -128`) -/
+def neg (a : Int) : Int := wrap (-a)
+/-- `a / b` on `int8` for a constant `b ≠ 0`: truncated division (`-128 / -1` wraps) -/
+def quo (a b : Int) : Int := wrap (Int.tdiv a b)
 
 end I8
+
+/-! Signed comparisons of `bits`-wide integers given by their two's complement representatives. -/
+namespace S
+/-- the integer denoted by the representative `a` of a signed `bits`-wide integer -/
+def toInt (bits a : Nat) : Int := if a < 2 ^ (bits - 1) then (a : Int) else (a : Int) - ((2 ^ bits : Nat) : Int)
+def lt (bits a b : Nat) : Bool := decide (toInt bits a < toInt bits b)
+def le (bits a b : Nat) : Bool := decide (toInt bits a ≤ toInt bits b)
+end S
+
+/-- `binary.LittleEndian.Uint64(x)` (the caller has checked `len(x) ≥ 8`) -/
+def Scalar.le64 (x : Bytes) : Nat := Bin.le64 x 0
+
+/-- `a[k] |= v` on a byte array -/
+def Bin.orAt (a : Bytes) (k v : Nat) : Bytes := a.set! k (a[k]! ||| v)
+
+/-- `binary.LittleEndian.PutUint64(buf[:], w)` for an 8-byte buffer: the new contents of the buffer -/
+def Fe.putLE64A (w : Nat) : Bytes := (Fe.putLE64 w).toArray
+
+/-! ## Loops that are not unrolled
+
+A function whose loops are kept as loops has result type `Res T`.  Calls of `Res`-valued functions, run-time checks
+(`Res.guard`: an index that the translator could not prove in range) and loops are sequenced with `Res.bind`. -/
+namespace Res
+def bind {α β : Type} (r : Res α) (f : α → Res β) : Res β :=
+  match r with
+  | .ok v => f v
+  | .err => .err
+  | .panic c => .panic c
+/-- a run-time check of the Go code (index in range): panics with class `cls` when `c` is false -/
+def guard (c : Bool) (cls : String) : Res Unit := if c then .ok () else .panic cls
+end Res
+
+namespace Loop
+/-- A loop of the SSA form.  The state `σ` is the tuple of the header's φ-values and of the memory objects written in
+the loop.  `step s` executes from the loop header in state `s` to the next arrival at the header (`.ok (s', true)`:
+`s'` holds the φ-values of that back edge) or to the loop's exit (`.ok (s', false)`: the φ-values are those of the
+iteration that left).  The loop panics with class `"fuel"` if it has not exited after `fuel` evaluations of `step`
+(no Go execution does that: the hand-proved lemmas show that the fuel passed by the translator is never exhausted). -/
+def iter {σ : Type} (step : σ → Res (σ × Bool)) : Nat → σ → Res σ
+  | 0, _ => .panic "fuel"
+  | fuel+1, s => (step s).bind fun r => if r.2 then iter step fuel r.1 else .ok r.1
+end Loop
 end EdVerif.Impl
